@@ -86,6 +86,23 @@ def problem_arrays(scn):
     return scn.get("x0"), lb, ub, plb, pub
 
 
+def lcb_schedule(k):
+    """User-supplied annealing schedule for the LCB acquisition (the documented one scaled by k): sqrt_beta(t, D)."""
+    def sched(t, d):
+        return k * np.sqrt(0.2 * 2 * np.log(d * t**2 * np.pi**2 / (6 * 0.1)))
+    sched.k = k
+    return sched
+
+
+def materialise_options(opts):
+    """JSON scenario options -> options dict for BADS (callables are described as {"__callable__": name, ...})."""
+    out = copy.deepcopy(opts)
+    for key, val in list(out.items()):
+        if isinstance(val, dict) and val.get("__callable__") == "lcb_schedule":
+            out[key] = ("acq_LCB", lcb_schedule(val["k"]))
+    return out
+
+
 def build(scn, trace, fault=None, script=None):
     """Return (fun, kwargs) for BADS(fun, **kwargs). `fault` = {call index (1-based): action};
     `script` = callable(trace, x, k) -> value overriding the target (history-dependent targets)."""
@@ -133,7 +150,7 @@ def build(scn, trace, fault=None, script=None):
 
     kw = dict(x0=spell(x0, sp), lower_bounds=spell(lb, sp), upper_bounds=spell(ub, sp),
               plausible_lower_bounds=spell(plb, sp), plausible_upper_bounds=spell(pub, sp),
-              non_box_cons=cons, options=copy.deepcopy(scn["options"]))
+              non_box_cons=cons, options=materialise_options(scn["options"]))
     return fun, kw
 
 
@@ -358,6 +375,8 @@ def run(scn, want=(), fault=None, script=None, fit_faults=None, probe_limit=True
             tr.events.append(dict(type="es_call", cls=type(self).__name__, lo=lo, us=np.array(out[0], copy=True),
                                   z=_f(out[1]), lb_search=np.array(optim_state["lb_search"]).copy(),
                                   ub_search=np.array(optim_state["ub_search"]).copy(), phase=tr.phase,
+                                  lb=np.array(optim_state["lb"], dtype=float).ravel().copy(), ub=np.array(optim_state["ub"], dtype=float).ravel().copy(),
+                                  search_mesh=float(optim_state["search_mesh_size"]),
                                   lamb=int(self.lamb), mu=int(self.mu)))
             return out
 
